@@ -18,14 +18,14 @@ def plan(tier):
     """(L, layouts, role names, depth, structural)"""
     if tier == 'quick':
         return [(1, ('plain',), 'RBW', 2, True), (2, ('plain', 'rainbow'), 'RBWX', 2, True),
-                (3, ('plain', 'rainbow'), 'RBW', 2, True), (4, ('plain',), 'RW', 2, False)]
+                (3, ('plain', 'rainbow'), 'RBW', 2, True), (4, ('plain',), 'RW', 2, False), (3, ('parsed',), 'RW', 1, True), (3, ('plain',), 'egm', 2, False), (3, ('long',), 'RW', 2, False)]
     return [(1, ('plain',), 'RBWX', 3, True), (2, ('plain', 'rainbow'), 'RBWX', 3, True),
             (3, ('plain', 'rainbow'), 'RBW', 3, False), (3, ('plain',), 'RBWXNT', 2, True),
-            (4, ('plain', 'rainbow'), 'RBW', 2, True), (5, ('plain',), 'RW', 2, True), (6, ('plain', 'rainbow'), 'RW', 2, False)]
+            (4, ('plain', 'rainbow'), 'RBW', 2, True), (5, ('plain',), 'RW', 2, True), (6, ('plain', 'rainbow'), 'RW', 2, False), (3, ('plain',), 'egmB', 2, True), (4, ('plain',), 'eg', 2, False), (3, ('long',), 'RBW', 2, False)]
 
 
 def tasks(tier, seed):
-    return explore.std_tasks(plan(tier))
+    return explore.std_tasks(explore.plan_override(ID, plan(tier)))
 
 
 def check_state(h, v, acc, record=True):
@@ -34,11 +34,15 @@ def check_state(h, v, acc, record=True):
     text, cells = model.alpha_codes(v)
     L = len(text)
     vs = AnsiStr(v)
-    bounds = list(range(-L - 2, L + 3)) + [None]
+    bounds = explore.probe_bounds(L, 2, 2)
     verified = {}
 
     def full_check(r, s, e, what, case):
-        t2, c2 = model.alpha_codes(r)
+        try:
+            t2, c2 = model.alpha_codes(r)
+        except Exception as ex:  # noqa
+            bad.append(('slice-inconsistent', case, '%s: reading the result raised %s: %s' % (what, type(ex).__name__, ex)))
+            return False
         if e < s:
             e = s
         if t2 != text[s:e]:
@@ -96,7 +100,7 @@ def check_state(h, v, acc, record=True):
                 acc.nontriv(hash((model.chash(tuple(cells)), s, e)))
     # integer indices
     v = build(h)
-    for k in range(-L - 2, L + 3):
+    for k in [x for x in explore.probe_bounds(L, 2, 2) if x is not None]:
         acc.transitions += 1
         case = {'hist': h, 'op': ['index', k]}
         valid = -L <= k < L
